@@ -906,6 +906,13 @@ dir-contents top : -selection dir-contents any file : name f num-files == 2
              "dir d += {\n  dir n += {\n    dir m += {\n      file k\n    }\n  }\n}\n"},
     {'name': 'clash-in-cleanup', 'expect': 'HARD_ERROR', 'act': None,
      'text': "[setup]\ndir d = {\n  dir s\n}\n[cleanup]\ndir d += dir-contents-of -rel-home src1\n"},
+    # names the file system refuses to look up (longer than NAME_MAX; through a symbolic-link loop), in an appended list
+    {'name': 'append-name-too-long', 'expect': 'HARD_ERROR', 'act': None,
+     'text': "[setup]\ndir d\ndir d += {\n  file %s\n}\n" % ('n' * 300)},
+    {'name': 'append-dir-name-too-long', 'expect': 'HARD_ERROR', 'act': None,
+     'text': "[setup]\ndir d\ndir d += {\n  dir %s += {\n    file k\n  }\n}\n" % ('n' * 300)},
+    {'name': 'create-name-too-long', 'expect': 'HARD_ERROR', 'act': None,
+     'text': "[setup]\ndir d = {\n  file %s\n}\n" % ('n' * 300)},
     {'name': 'append-to-missing-dir-in-assert', 'expect': 'HARD_ERROR', 'act': None,
      'text': "[assert]\ndir nodir += {\n  file k\n}\n"},
 ]
